@@ -38,6 +38,9 @@ type File struct {
 	Messages  []*Message `json:"messages,omitempty"`
 	Enums     []*Enum    `json:"enums,omitempty"`
 	Services  []*Service `json:"services,omitempty"`
+	// Comments: leading comments as protoc would deliver them in source_code_info, keyed `msg:<Message>`,
+	// `field:<Message>.<field>`, `enum:<Enum>`, `svc:<Service>`, `rpc:<Service>.<Method>` (top-level declarations only).
+	Comments map[string]string `json:"comments,omitempty"`
 	// ViaPrelude: the file imports none of the option / well-known files it uses itself; it imports
 	// `prelude/prelude.proto`, which re-exports them all with `import public` (a common company-wide layout).
 	ViaPrelude bool `json:"via_prelude,omitempty"`
